@@ -302,9 +302,66 @@ def large_step_ps(run, rng, quick):
     return done
 
 
+def vmf_generic_gauge(run, rng, quick):
+    """variable-mean-field TDVP (overlap forcing on, the default) at complete bond dimension on a chain of 5-6 sites whose tensors
+    are in a GENERIC complex gauge (a complex invertible matrix inserted on every bond; the centre flags say `left sweep from the
+    last site`, so the scheme keeps the tensors as they are): the overlap matrices are complex and non-symmetric on every bond.
+    The result must be exp(-iHt) psi whatever the gauge."""
+    import scipy.linalg
+    from renormalizer.model import Model, Op, basis as ba
+    from renormalizer.mps import Mps, Mpo
+    from renormalizer.utils import EvolveConfig, EvolveMethod, CompressConfig, CompressCriteria
+    done = 0
+    for _ in range(1 if quick else 5):
+        n = int(rng.integers(5, 7))
+        basis = [ba.BasisHalfSpin(i) for i in range(n)]
+        terms = [Op("sigma_x sigma_x", [i, i + 1], float(rng.uniform(0.5, 1.0))) for i in range(n - 1)] + \
+                [Op("sigma_y sigma_y", [i, i + 1], float(rng.uniform(0.2, 0.6))) for i in range(n - 1)] + \
+                [Op("sigma_z", i, float(rng.uniform(-1, 1))) for i in range(n)]
+        model = Model(basis, terms)
+        mpo = Mpo(model)
+        h = np.asarray(mpo.todense())
+        nh = float(np.linalg.norm(h, 2))
+        np.random.seed(int(rng.integers(2 ** 31)))
+        M = 2 ** (n // 2)
+        mps = Mps.random(model, 0, M, percent=1.0).to_complex()
+        mps.canonicalise().canonicalise()      # two QR sweeps: no bond larger than its exact rank (over-complete bonds are a recorded finding)
+        mps.ensure_left_canonical()
+        for k in range(n - 1):
+            d = mps[k].shape[-1]
+            G = np.eye(d) + 0.35 * (rng.normal(size=(d, d)) + 1j * rng.normal(size=(d, d)))
+            if np.linalg.cond(G) > 30:
+                continue
+            a, b = np.asarray(mps[k].array), np.asarray(mps[k + 1].array)
+            mps[k] = np.tensordot(a, G, axes=([a.ndim - 1], [0]))
+            mps[k + 1] = np.tensordot(np.linalg.inv(G), b, axes=([1], [0]))
+        mps.compress_config = CompressConfig(CompressCriteria.fixed, max_bonddim=M)
+        psi0 = np.asarray(mps.todense()).ravel() * complex(mps.coeff)
+        T = 0.5 / nh
+        ref = scipy.linalg.expm(-1j * T * h) @ psi0
+        for method in (EvolveMethod.tdvp_mu_vmf, EvolveMethod.tdvp_vmf):
+            work = mps.copy()
+            work.evolve_config = EvolveConfig(method, ivp_rtol=1e-8, ivp_atol=1e-10, force_ovlp=True)
+            try:
+                out = work.evolve(mpo, T, normalize=False)
+            except Exception as e:  # noqa
+                run.violation(f"vmf-generic-gauge:{method.name}:raises:{type(e).__name__}", dict(nsite=n, error=repr(e)[:200]))
+                continue
+            got = np.asarray(out.todense()).ravel() * complex(out.coeff)
+            err = float(np.linalg.norm(got - ref) / np.linalg.norm(ref))
+            done += 1
+            run.count(f"vmf-generic-gauge:{method.name}:n={n}")
+            if err > 1e-4:
+                run.violation(f"vmf-generic-gauge:{method.name}:vs-expm",
+                              dict(nsite=n, T=T, rel_err=err, terms=[(t.symbol, list(t.dofs), float(np.real(t.factor))) for t in terms],
+                                   tensors=[dict(re=np.real(np.asarray(t.array)).tolist(), im=np.imag(np.asarray(t.array)).tolist()) for t in mps],
+                                   what="VMF with overlap forcing on a generic-gauge complete-bond state must reproduce exp(-iHt) psi"))
+    return done
+
+
 if __name__ == "__main__":
     common.main_wrapper(lambda: generic_check.run_check(
-        "C09", "other", ["RenoVerif/Props/C09.lean", "RenoVerif/Props/C12.lean"], [l2_rk_poly, l2_taylor_poly, l2_controller, l2_chain_sweep_events, large_step_ps],
+        "C09", "other", ["RenoVerif/Props/C09.lean", "RenoVerif/Props/C12.lean"], [l2_rk_poly, l2_taylor_poly, l2_controller, l2_chain_sweep_events, large_step_ps, vmf_generic_gauge],
         ["error orders of TDVP/P&C schemes, Lanczos/RK45 local solvers, adaptive step-size termination are numerical (measured by slopes)",
          "projector-splitting norm/energy conservation is measured, its algebraic reason (unitary local steps + C04 pushes) is not assembled into one Lean theorem"],
         "ten tableaux x one fixed step of the real general RK scheme at full bond dimension vs the model polynomial",
